@@ -393,6 +393,36 @@ func (i *interpreter) pick(t *Term) uint64 {
 	return v
 }
 
+// pickMin returns the smallest (unsigned) value t can take under the path condition: a
+// representative that does not depend on which model a solver happens to return, so that two
+// solvers explore the same paths. Binary search over bvule bounds, one query per bit at most.
+func (i *interpreter) pickMin(t *Term) uint64 {
+	p := i.path
+	if len(p.decs) < len(p.prefix) {
+		return i.pick(t) // replaying a recorded decision
+	}
+	i.flushAsserts()
+	w := t.sort.W
+	var lo, hi uint64 = 0, ^uint64(0)
+	if w < 64 {
+		hi = (uint64(1) << w) - 1
+	}
+	if !i.feasible(i.ts.BVCmp("bvule", t, i.ts.BV(w, hi))) {
+		i.abort("infeasible", "path condition unsatisfiable at pick")
+	}
+	for lo < hi {
+		mid := lo + (hi-lo)/2
+		c := i.ts.And(i.ts.BVCmp("bvule", i.ts.BV(w, lo), t), i.ts.BVCmp("bvule", t, i.ts.BV(w, mid)))
+		if i.feasible(c) {
+			hi = mid
+		} else {
+			lo = mid + 1
+		}
+	}
+	p.decs = append(p.decs, decision{Pick: true, Val: lo})
+	return lo
+}
+
 func (i *interpreter) evalInSolver(t *Term) (uint64, error) {
 	s := i.solver
 	t0 := time.Now()
